@@ -16,6 +16,7 @@ NOTES = {
     "C14-I": "manifests only on streams outside C14's stated domain (running-status data bytes directly behind a sysex: not a legal elision); caught by C06, which quantifies over all byte streams",
     "C06-N": "thorough tier only: needs one sysex with more than 2^32 data bytes (same group as C06-H, 'sysex-beyond-2^32-bytes')",
     "C17-N": "the reader of the in-port dies on a line of more than 64 KiB; nothing arrives any more, so the run ends 'inconclusive' (sentinel never observed), never 'held': an asynchronous pipeline gives no proof of loss",
+    "C14-P": "manifests only on streams outside C14's stated domain (data bytes without status directly behind a sysex: the sysex has cancelled the running status, so this is no legal elision); caught by C06, which quantifies over all byte streams",
     "C17-F": "detection depends on which helper process dies first: violated (Send fails) in most runs, otherwise inconclusive (probe never observed), never 'held'",
 }
 
@@ -66,6 +67,8 @@ FIRST_PASS_MISSES = {
     "L": ["C17-L"],
     "M": ["C07-M", "C19-M"],
     "N": ["C01-N", "C02-N", "C05-N", "C06-N", "C08-N", "C09-N", "C10-N", "C11-N", "C12-N", "C13-N", "C14-N", "C17-N", "C18-N", "C19-N", "C20-N"],
+    "O": ["C01-O", "C02-O", "C12-O", "C13-O", "C18-O"],
+    "P": ["C01-P", "C02-P", "C07-P", "C14-P", "C17-P"],
 }
 summary = ["| wave | changes | caught by the quick check of their own property | not caught by it |", "|---|---|---|---|"]
 for wave, (n, okn, miss) in per_wave.items():
